@@ -141,7 +141,7 @@ func TestVerifC05Trace(t *testing.T) {
 		paths := rgReqPaths(r, cfg)
 		base := []vx.M{}
 		for i := 0; i < 3+r.Intn(3); i++ {
-			base = append(base, rgReq(r, o, paths, clients))
+			base = append(base, rgReq(r, o, cfg, paths, clients))
 		}
 		var hist []vx.M
 		for i := 0; i < nreq; i++ {
